@@ -42,12 +42,15 @@ Print Assumptions C07_recursion_terminates.
 Theorem C07_seqseq_runs : forall (A : alg) (P : nparams A) seq1 seq2,
   exists p, raw_path A (ss_kernel A P seq1 seq2) (Z.of_nat (length seq1)) (Z.of_nat (length seq2)) = Some p.
 Proof. exact ss_total. Qed.
+Print Assumptions C07_seqseq_runs.
 Theorem C07_seqprofile_runs : forall (A : alg) (P : nparams A) prof1 seq2 sip len_a, 0 <= len_a ->
   exists p, raw_path A (sp_kernel A P prof1 seq2 sip) len_a (Z.of_nat (length seq2)) = Some p.
 Proof. exact sp_total. Qed.
+Print Assumptions C07_seqprofile_runs.
 Theorem C07_profileprofile_runs : forall (A : alg) prof1 prof2 len_a, 0 <= len_a -> (2 <= length prof2)%nat ->
   exists p, raw_path A (pp_kernel A prof1 prof2) len_a (Z.of_nat (length prof2) - 2) = Some p.
 Proof. exact pp_total. Qed.
+Print Assumptions C07_profileprofile_runs.
 Print Assumptions C07_seqseq_runs.
 
 (* The full statement - "if an alignment beats every other alignment of a and b by a safe margin under every
